@@ -17,6 +17,9 @@ RULE = ("scripts against the real sche.MultiSelector/Sche driven step by step: 1
         "3 of 8 cases start with an OVERFLOW phase: the service is held inside a handler while foreign goroutines produce 1000-2200 items of the kinds with a bounded queue (local or global events, posted closures, timers, session messages: capacity 999) "
         "and 200-1300 requests - producers must block (global events: be dropped), nothing may run off the held loop goroutine, after the release everything accepted is executed; "
         "1 of 8 cases first crashes the service actor (handler panic -> supervisor restart -> producer runs again), 1 of 8 spawns the same props twice (two actors on one run service); "
+        "every case also runs 1-12 rounds of BOUNDARY work: timers that are already due (delay 0, -1ns, -3s), 1ns, 1ms, period-0 and repeating (cancelled from their 3rd callback) armed from foreign goroutines - "
+        "also while the service is held busy - and work produced from INSIDE a posted closure, a timer callback, an event listener and a request handler of the service itself (timers already due, Post to its own scheduler, "
+        "Publish on its own event centre): every such piece must run on the loop goroutine and must not start before the piece that produced it has ended (nesting shows as two pieces in flight); "
         "every fifth case a lopsided single-kind mix). Non-trivial = a user handler ran at least once (scripts) / any stress case; distinct = distinct annotated op lists.")
 TRUSTED_BASE = [
     "Coq 8.16.1 kernel + vm_compute (case evaluation, Examples); no native_compute",
@@ -42,7 +45,7 @@ TECHNIQUE = ("Coq proof (inductive invariant of the MultiSelector machine over a
 LEVEL_TEXT = ("PARTIAL. Proved in Coq, for all histories / all schedules, about the MODEL of sche.MultiSelector and of the single consumer loop: runnings[i] always owns cases[i] and every handler invocation "
               "is for a value from its own channel (C04_selector_index, C04_handler_owns_channel); per channel, what was enqueued = what was handed to handlers, in order, exactly once, + what is still queued "
               "(C04_task_accounting); a queued task on a registered live channel is always selectable and a draining consumer hands over everything (C04_task_enabled, C04_no_task_lost); with ONE consumer process "
-              "and arbitrary concurrent producers at most one task is running, run by the consumer, never an index panic, never parked on stale cases while work is pending (C04_one_at_a_time, C04_no_missed_wakeup); the monitor applied to implementation traces accepts every trace of the model (C04_monitor_sound). "
+              "and arbitrary concurrent producers at most one task is running, run by the consumer, never an index panic, never parked on stale cases while work is pending (C04_one_at_a_time, C04_no_missed_wakeup, C04_handler_runs_to_completion, C04_producers_never_run_handlers); the monitor applied to implementation traces accepts every trace of the model (C04_monitor_sound). "
               "C04_funnel_total (every work kind has a channel whose items all reach the consumer) is true BY CONSTRUCTION of the funnel table. "
               "NOT provable in any Gallina model and therefore MEASURED on the running code each run: that the real entry points (request/notify handler, response and timeout callback, timer callback, "
               "posted closure, local/global event, session add/remove/message) really go through those channels and really execute on the service's one loop goroutine, one at a time - "
